@@ -323,6 +323,42 @@ def present(t, form):
     return (t + off).replace(tzinfo=datetime.timezone(off)).isoformat()
 
 
+HUGE = [(TD(seconds=2 ** 34, microseconds=1), 2 ** 34), (TD(seconds=2 ** 34), 2 ** 34),
+        (TD(seconds=2 ** 34, microseconds=-1), 2 ** 34),
+        (TD(seconds=-2 ** 34, microseconds=-1), 2 ** 34), (TD(seconds=2 ** 35, microseconds=1), 2 ** 35),
+        (TD(days=700000, microseconds=1), 700000 * 86400), (TD(days=-2500000, microseconds=-1), 2500000 * 86400),
+        (TD(seconds=2 ** 33, microseconds=1), 2 ** 33)]
+
+
+def _huge_case(vals, acc):
+    """Ages of centuries: the comparison must stay exact to the microsecond."""
+    from oslo_utils import timeutils
+    (age, s), form = vals
+    now = DT(5000, 1, 1, 0, 0, 0)
+    try:
+        t = now - age
+    except OverflowError:
+        return
+    arg = present(t, form)
+    acc.nontrivial(repr((age, s, form)))
+    timeutils.set_time_override(now)
+    try:
+        want = {'is_older_than': age > TD(seconds=s), 'is_newer_than': -age > TD(seconds=s)}
+        for f in want:
+            try:
+                got = getattr(timeutils, f)(arg, s)
+            except Exception as e:
+                got = ('raises', type(e).__name__)
+            if got is not want[f]:
+                acc.fail('%s:huge-age' % f, {'function': f, 'now': repr(now), 't': repr(arg),
+                                             'age': repr(age), 'seconds': s, 'got': repr(got),
+                                             'want': want[f]},
+                         {'huge': [age.days, age.seconds, age.microseconds, s, form]})
+                return
+    finally:
+        timeutils.clear_time_override()
+
+
 def _cmp_case(vals, acc):
     from oslo_utils import timeutils
     tz, now, d, s, form = vals
@@ -379,6 +415,18 @@ def _marshal_case(vals, acc):
         acc.fail('marshall-roundtrip:%s' % tzk, {'input': repr(dt), 'got': repr(back)},
                  {'marshal': [inst.isoformat(), tzk]})
         return
+    # unmarshalling reads its argument: a second call on the same dict agrees
+    snapshot = dict(m)
+    try:
+        again = timeutils.unmarshall_time(m)
+        ok = again == back and (again.tzinfo is None) == (back.tzinfo is None) and m == snapshot
+    except Exception as e:
+        again, ok = ('raises', type(e).__name__), False
+    if not ok:
+        acc.fail('unmarshall-twice:%s' % tzk, {'dict_before': repr(snapshot), 'dict_after': repr(m),
+                                               'first': repr(back), 'second': repr(again)},
+                 {'marshal': [inst.isoformat(), tzk]})
+        return
     # leap second is capped at 59
     m2 = dict(m, second=60)
     try:
@@ -420,6 +468,7 @@ def run(ctx):
     ds = MARGINS
     E.run(rep, 'comparisons', [TZS if ctx.thorough else TZS[:2], CMP_NOWS if ctx.thorough else CMP_NOWS[:2],
                                ds, MARGINS, FORMS], _cmp_case)
+    E.run(rep, 'huge-ages', [HUGE, FORMS], _huge_case)
     E.run(rep, 'marshalling', [INSTANTS + [DT(2015, 6, 30, 23, 59, 59, 1)],
                                ['naive', 'utc', 'iso8601', 'zoneinfo']], _marshal_case)
     rep.sample({'clock_history': [['set', 6], ['adv_seconds', 6], ['adv_seconds', 6]],
@@ -455,6 +504,9 @@ def replay(payload):
         inst = DT.fromisoformat(iso)
         o = None if off is None else eval(off, {'datetime': datetime})   # repr of timedelta / zone name
         _norm_case((tz, inst, o), acc)
+    elif 'huge' in payload:
+        d, sec, us, thr, form = payload['huge']
+        _huge_case(((TD(days=d, seconds=sec, microseconds=us), thr), form), acc)
     elif 'cmp' in payload:
         iso, d, s, form, tz = payload['cmp']
         _cmp_case((tz, DT.fromisoformat(iso), d, s, form), acc)
